@@ -3,6 +3,7 @@ package props
 import (
 	"bytes"
 	"fmt"
+	"sync"
 	"sync/atomic"
 
 	"verif/core"
@@ -58,6 +59,19 @@ func c07Judge(r *core.Run, p C07Case, data, plain []byte, site, desc string) {
 	r.Nontrivial(core.Hash(site, cls, len(plain) > 0))
 }
 
+var (
+	c07TextOnce sync.Once
+	c07TextO    []ref.Op
+)
+
+func c07TextOps() []ref.Op {
+	c07TextOnce.Do(func() {
+		in := append(append(append([]byte(nil), textBytes(88, 400)...), randBytes(88, 120)...), textBytes(89, 180)...)
+		c07TextO = ref.GreedyOps(0, in, 4096)
+	})
+	return c07TextO
+}
+
 func c07Read(r *core.Run, p C07Case) {
 	switch p.Kind {
 	case "ops":
@@ -83,6 +97,15 @@ func c07Read(r *core.Run, p C07Case) {
 		}
 		r.Trans("terminate:" + modeNames[p.Mode] + fmt.Sprintf(" empty=%v", len(plain) == 0))
 		c07Judge(r, p, data, plain, "mode="+modeNames[p.Mode], fmt.Sprintf("fill(%d) %s props code %d (%v) mode %s DictCap %d", p.Fill, symsString(p.Syms), p.Code, pr, modeNames[p.Mode], p.DictCap))
+	case "text":
+		// a literal-rich text coded greedily: every literal context is used many times, so the
+		// choice of the literal sub-coder (lc, lp, position) matters once the tables are trained
+		pr, _ := ref.PropsFromCode(byte(p.Code))
+		data, plain, err := ref.EncodeAlone(pr, 1<<16, c07TextOps(), p.Mode != 0, p.Mode != 1)
+		if err != nil {
+			panic(err)
+		}
+		c07Judge(r, p, data, plain, "trained-literals", fmt.Sprintf("700 bytes of mixed text and binary, greedy operations, props code %d (%v) mode %s", p.Code, pr, modeNames[p.Mode]))
 	case "corpus":
 		for _, e := range bindRef(nil) {
 			if e.File == p.File {
@@ -103,7 +126,7 @@ func c07Read(r *core.Run, p C07Case) {
 func runC07(r *core.Run) {
 	corpus := bindRef(r)
 	th := thorough(r)
-	r.Rule = "writer side: the C06 space (a)-(c) restricted to lc+lp<=4, every stream judged by the reference .lzma decoder (properties byte, dictionary size >= max distance, size/marker mode truthful) and by liblzma; reader side: all legal operation sequences (depth d) x three termination modes x 4 property codes, a fixed op list x all 225 property codes x 3 modes x 2 DictCaps, zero-length content in all modes x all codes, after state-macro prefixes, the liblzma corpus and fresh FORMAT_ALONE encodings. states = coder states; transitions = (state, op kind) and termination-mode steps; non-trivial = distinct (family, outcome, empty?)"
+	r.Rule = "writer side: the C06 space (a)-(c) restricted to lc+lp<=4, every stream judged by the reference .lzma decoder (properties byte, dictionary size >= max distance, size/marker mode truthful) and by liblzma; reader side: all legal operation sequences (depth d) x three termination modes x 4 property codes, a fixed op list x all 225 property codes x 3 modes x 2 DictCaps, a literal-rich 700-byte input x all 225 codes x 2 modes, zero-length content in all modes x all codes, after state-macro prefixes, the liblzma corpus and fresh FORMAT_ALONE encodings. states = coder states; transitions = (state, op kind) and termination-mode steps; non-trivial = distinct (family, outcome, empty?)"
 	// writer side
 	wcases := lzmaWCases(r, "C07")
 	var kept []LZWCase
@@ -166,6 +189,9 @@ func runC07(r *core.Run) {
 				cases = append(cases, C07Case{Kind: "ops", Fill: 40, Syms: fixed, Code: code, Mode: mode, DictCap: dc})
 			}
 			cases = append(cases, C07Case{Kind: "ops", Code: code, Mode: mode, DictCap: 4096}) // zero-length content
+			if mode < 2 {
+				cases = append(cases, C07Case{Kind: "text", Code: code, Mode: mode, DictCap: 4096})
+			}
 		}
 	}
 	for _, e := range corpus {
